@@ -1,6 +1,6 @@
 (* C01 - Hostile server responses never crash or hang a query.
    Rows proved so far: valve::query (every Valve game wrapper calls it). *)
-From GD Require Import Base.Prelude Model.Strings Model.Buffer Model.Net Model.Valve Model.Quake Proofs.Msafe Proofs.ValveTotal Proofs.QuakeTotal.
+From GD Require Import Base.Prelude Model.Strings Model.Buffer Model.Net Model.Valve Model.Quake Model.Unreal2 Proofs.Msafe Proofs.ValveTotal Proofs.QuakeTotal Proofs.Unreal2Total.
 
 (* For every reply script (any datagrams, timeouts, send failures, in any
    order and number), every engine, gather and accepted timeout setting, the
@@ -24,6 +24,11 @@ Theorem c01_quake_total : forall port v t u tc sf, settings_ok t ->
   safe (fst (Quake.client_query port v t (net_init u tc sf))).
 Proof. exact quake_total. Qed.
 Print Assumptions c01_quake_total.
+
+(* Unreal 2 *)
+Theorem c01_unreal2_total : forall port g t u tc sf, settings_ok t -> safe (fst (u2_query port g t (net_init u tc sf))).
+Proof. exact u2_total. Qed.
+Print Assumptions c01_unreal2_total.
 
 (* hypotheses are satisfiable: default settings, and a hostile script *)
 Example c01_ex_settings : settings_ok None /\ retries_ok None /\ settings_ok (Some ts_default).
